@@ -11,6 +11,7 @@ pub mod mss;
 pub mod noise;
 pub mod substream;
 pub mod svc;
+pub mod tcp;
 
 pub mod kad {
     pub use crate::protocol::libp2p::kademlia::verif::*;
